@@ -174,3 +174,51 @@ def abstrig(job, rng, home):
     return _pack(job["seed"], w, res, opt, {"plan": plan})
 
 SCENARIOS.update({"hold": hold, "stopcmds": stopcmds, "warm": warm, "abstrig": abstrig})
+
+def cmds(job, rng, home):
+    """Manual intervention: trigger / set outputs / remove / reload at random moments (with message duplication
+    when job['dups'])."""
+    import os, random
+    w = gen.generate(rng, features=job.get("features"))
+    oseed, eseed = rng.randrange(1 << 30), rng.randrange(1 << 30)
+    twin, n_events, n_iters = _twin(w, oseed, eseed, home, "complete")
+    outcome = gen.make_outcome(w, random.Random(oseed), "complete")
+    known = sorted(twin["launched"])
+    def some_ids(k):
+        out = []
+        for _ in range(k):
+            if known and rng.random() < 0.8:
+                n, p = rng.choice(known)
+            else:
+                n, p = rng.choice(w.tasks), rng.randint(w.icp, w.fcp)
+            out.append(f"{p}/{n}")
+        return sorted(set(out))
+    kinds = job.get("kinds") or ["trigger", "trigger", "set", "remove", "reload"]
+    cl = []
+    for _ in range(rng.randint(1, 3)):
+        it = rng.randint(1, max(1, n_iters + 2))
+        k = rng.choice(kinds)
+        if k == "trigger":
+            flow = rng.choice([[], [], ["new"], ["none"], ["1"]])
+            cl.append((it, "force_trigger_tasks", {"tasks": some_ids(rng.randint(1, 3)), "flow": flow}))
+        elif k == "set":
+            ids = some_ids(rng.randint(1, 2))
+            outs = rng.choice([None, None, ["succeeded"], ["started"], ["x"], ["failed"]])
+            if outs == ["x"]:
+                ids = [i for i in ids if w.custom.get(i.split("/")[1])] or ids
+                if not all(w.custom.get(i.split("/")[1]) for i in ids):
+                    outs = None
+            cl.append((it, "set", {"tasks": ids, "flow": rng.choice([[], [], ["new"]]), "outputs": outs}))
+        elif k == "remove":
+            cl.append((it, "remove_tasks", {"tasks": some_ids(rng.randint(1, 2)), "flow": rng.choice([[], [], ["1"]])}))
+        else:
+            cl.append((it, "reload_workflow", {}))
+    plan = {"cmds": cl}
+    pol = dict(job.get("policy") or {})
+    if job.get("dups"):
+        pol.update(p_dup=0.3, p_redeliver=0.4)
+        plan["react_retry_trigger"] = True
+    res = driver.execute(w.flow_text(), outcome, eseed, os.path.join(home, "main"), plan=plan, policy=pol)
+    return _pack(job["seed"], w, res, {"manual": True, "allcomplete": False, "stopreq": True}, {"plan": plan})
+
+SCENARIOS["cmds"] = cmds
